@@ -1,1 +1,1152 @@
-fn main(){}
+//! C16 — reported locations are consistent with the input and name the right node.
+//!
+//! Oracles (all run on every execution):
+//! 1. consistency: every `Location` obtained (all `Spanned` fields of a fully
+//!    span-wrapped tree, every error location) lies inside the BOM-stripped
+//!    input and its line / column / char offset / byte offset denote the same
+//!    position (`lines::Index::recompute`, an independent recomputation with
+//!    YAML break rules);
+//! 2. defined = node: the `defined` location of every delivered node equals the
+//!    raw parser's mark for the node the reference model (`model`) says it is;
+//! 3. referenced = use site: the node's own position when it is written in
+//!    place, the alias token when reached through an alias, the `<<` key or the
+//!    merge value when reached through a merge;
+//! 4. span exactness for single-line plain / quoted scalars:
+//!    `input[byte range] ==` the token the renderer wrote;
+//! 5. error = span: a type error provoked at a known node by a run-time typed
+//!    mirror must report the referenced/defined pair the span-wrapped parse
+//!    gave for that node (errors under an alias must carry both).
+
+mod docgen;
+mod lines;
+mod model;
+mod stree;
+mod typed;
+
+use lines::{Index, LocKind, LocStats, check_loc};
+use model::{Indir, Matched, XK};
+use saphyr_parser::ScalarStyle;
+use serde_json::{Value, json};
+use serde_saphyr::Location;
+use std::collections::BTreeMap;
+use stree::{SNode, ST, collect, loc_str};
+use typed::Want;
+use vcore::reftree::{self, Pos, RNode};
+use vcore::rng::{Rng, fnv_parts};
+use vcore::run::{Finish, Run, Tier, par_range};
+use vcore::treegen::{self, Leaf};
+use vcore::ydoc::{self, Node, RenderOpts, Style};
+
+/// Equality of the error's `defined` location with the span-wrapped `defined`
+/// for nodes strictly inside a replayed (aliased / merged) container is not
+/// demanded: the statement also allows "that of the anchored node". Flip to
+/// make it a verdict.
+const STRICT_ERROR_DEFINED_INSIDE_REPLAY: bool = false;
+
+fn opts() -> serde_saphyr::Options {
+    vcore::errs::unlimited_options()
+}
+
+type Counts = BTreeMap<&'static str, u64>;
+fn bump(c: &mut Counts, k: &'static str) {
+    *c.entry(k).or_insert(0) += 1;
+}
+
+thread_local! {
+    static FILED: std::cell::RefCell<std::collections::HashMap<String, u64>> = std::cell::RefCell::new(std::collections::HashMap::new());
+}
+const FILE_CAP_PER_THREAD_AND_SIGNATURE: u64 = 8;
+
+/// `run.violation` with a per-thread cap per signature: `Run::violation` keeps every case key,
+/// which is quadratic when a broken build makes every node a violation. Everything beyond the
+/// cap is only counted (`violations_counted_not_filed/<signature>`).
+fn viol(run: &Run, sig: &str, case: Value, detail: impl Into<String>) {
+    let n = FILED.with(|f| {
+        let mut f = f.borrow_mut();
+        let e = f.entry(sig.to_string()).or_insert(0);
+        *e += 1;
+        *e
+    });
+    if n <= FILE_CAP_PER_THREAD_AND_SIGNATURE {
+        run.violation(sig, case, detail);
+    }
+}
+
+/// Publish the counts of violations that were not filed (call at the end of a work item).
+fn flush_viol(run: &Run) {
+    FILED.with(|f| {
+        let mut f = f.borrow_mut();
+        for (sig, n) in f.iter_mut() {
+            if *n > FILE_CAP_PER_THREAD_AND_SIGNATURE {
+                let extra = *n - FILE_CAP_PER_THREAD_AND_SIGNATURE;
+                run.count(&format!("violations_counted_not_filed/{sig}"), extra);
+                *n = FILE_CAP_PER_THREAD_AND_SIGNATURE;
+            }
+        }
+    })
+}
+
+fn consistency_sig(sig: &str, what: &str) -> String {
+    if sig == "char-offset-counts-bytes-on-directive-line" {
+        format!("C16:consistency:{sig}")
+    } else {
+        format!("C16:consistency:{sig}:{what}")
+    }
+}
+
+thread_local! {
+    static SEEN: std::cell::RefCell<std::collections::HashMap<&'static str, std::collections::HashSet<String>>> =
+        std::cell::RefCell::new(std::collections::HashMap::new());
+}
+
+/// `run.observe` behind a per-thread cache (the global set is mutex-protected).
+fn observe(run: &Run, set: &'static str, label: &str) {
+    SEEN.with(|s| {
+        let mut s = s.borrow_mut();
+        let e = s.entry(set).or_default();
+        if !e.contains(label) {
+            e.insert(label.to_string());
+            run.observe(set, label);
+        }
+    })
+}
+
+fn same_pos(a: &Location, b: &Location) -> bool {
+    a.line() == b.line()
+        && a.column() == b.column()
+        && a.span().offset() == b.span().offset()
+        && a.span().byte_offset() == b.span().byte_offset()
+}
+
+struct DocCase<'a> {
+    /// text as handed to the library (may start with a BOM)
+    text: &'a str,
+    /// per document: renderer token per pre-order node id (None = not a single-line scalar / alias)
+    tokens: Option<&'a [Vec<Option<String>>]>,
+    /// the text is a stream of documents (read with `from_multiple`); no typed part
+    multi: bool,
+    /// which typed wants to try, and on how many nodes
+    typed_nodes: usize,
+    typed_wants: &'a [Want],
+    /// restrict the typed part to one (path, want) — replay
+    only: Option<(Vec<usize>, Want)>,
+    source: &'static str,
+}
+
+fn case_json(c: &DocCase, extra: Value) -> Value {
+    json!({
+        "kind": "doc",
+        "source": c.source,
+        "text": c.text,
+        "multi": c.multi,
+        "tokens": c.tokens,
+        "at": extra,
+    })
+}
+
+fn pre_order(root: &RNode) -> Vec<&RNode> {
+    fn go<'a>(n: &'a RNode, out: &mut Vec<&'a RNode>) {
+        out.push(n);
+        match n {
+            RNode::Seq { items, .. } => items.iter().for_each(|i| go(i, out)),
+            RNode::Map { entries, .. } => entries.iter().for_each(|(k, v)| {
+                go(k, out);
+                go(v, out);
+            }),
+            _ => {}
+        }
+    }
+    let mut v = Vec::new();
+    go(root, &mut v);
+    v
+}
+
+/// Compare a library location with the raw parser's mark for the same node.
+fn vs_parser(l: &Location, p: &Pos) -> Result<(), (&'static str, String)> {
+    let sp = l.span();
+    if sp.offset() as usize != p.index {
+        return Err(("char-offset", format!("char offset {} vs parser index {}", sp.offset(), p.index)));
+    }
+    if l.line() as usize != p.line {
+        return Err(("line", format!("line {} vs parser line {}", l.line(), p.line)));
+    }
+    if l.column() as usize != p.col + 1 {
+        return Err(("column", format!("column {} vs parser col {} + 1", l.column(), p.col)));
+    }
+    let plen = p.end_index.saturating_sub(p.index);
+    if sp.len() as usize != plen {
+        return Err(("char-len", format!("char len {} vs parser span {}..{}", sp.len(), p.index, p.end_index)));
+    }
+    if let (Some(b), Some(eb)) = (p.byte, p.end_byte) {
+        let blen = eb.saturating_sub(b);
+        if (b, blen) == (0, 0) {
+            // the crate's documented "unavailable" sentinel coincides with this value
+            if sp.byte_offset().is_some_and(|x| x != 0) {
+                return Err(("byte-offset", format!("byte offset {:?} vs parser 0", sp.byte_offset())));
+            }
+        } else {
+            if sp.byte_offset() != Some(b as u64) {
+                return Err(("byte-offset", format!("byte offset {:?} vs parser {b}", sp.byte_offset())));
+            }
+            if sp.byte_len() != Some(blen as u64) {
+                return Err(("byte-len", format!("byte len {:?} vs parser {blen}", sp.byte_len())));
+            }
+        }
+    }
+    Ok(())
+}
+
+fn style_name(s: ScalarStyle) -> &'static str {
+    match s {
+        ScalarStyle::Plain => "plain",
+        ScalarStyle::SingleQuoted => "single-quoted",
+        ScalarStyle::DoubleQuoted => "double-quoted",
+        ScalarStyle::Literal => "literal",
+        ScalarStyle::Folded => "folded",
+    }
+}
+
+/// Everything C16 checks about one input (one document, or a stream of documents
+/// when `c.multi`). Returns false when the input could not be used (inconclusive
+/// reasons are recorded on `run`).
+fn check_doc(run: &Run, c: &DocCase, counts: &mut Counts) -> bool {
+    let stripped = c.text.strip_prefix('\u{FEFF}').unwrap_or(c.text);
+    let idx = Index::new(stripped);
+    let roots: Vec<RNode> = if c.multi {
+        match reftree::parse_stream(stripped) {
+            Ok(docs) if docs.iter().all(|d| d.root.is_some()) => docs.into_iter().filter_map(|d| d.root).collect(),
+            _ => {
+                run.inconclusive("generator-invalid: raw parser rejects the stream or sees an empty document");
+                return false;
+            }
+        }
+    } else {
+        match reftree::parse_one(stripped) {
+            Some(r) => vec![r],
+            None => {
+                run.inconclusive("generator-invalid: raw parser does not see exactly one document");
+                return false;
+            }
+        }
+    };
+    let mut xs = Vec::new();
+    for root in &roots {
+        let Some(x) = model::expand_doc(root) else {
+            if std::env::var("C16_DEBUG").is_ok() {
+                eprintln!("NOT-EXPANDABLE {:?}", c.text);
+            }
+            run.inconclusive("generator-invalid: document not expandable by the reference model");
+            return false;
+        };
+        xs.push(x);
+    }
+    run.eval();
+    let parsed = vcore::obs::catch(|| {
+        if c.multi {
+            serde_saphyr::from_multiple_with_options::<SNode>(c.text, opts())
+        } else {
+            serde_saphyr::from_str_with_options::<SNode>(c.text, opts()).map(|t| vec![t])
+        }
+    });
+    let sts: Vec<SNode> = match parsed {
+        Err(p) => {
+            viol(run, &format!("C16:panic:{}", vcore::obs::panic_site(&p)), case_json(c, json!(null)), p);
+            return false;
+        }
+        Ok(Err(e)) => {
+            // whether a document is accepted is C02/C03's business; here only its location
+            bump(counts, "span_parse_rejected");
+            observe(run, "span_parse_error_kinds", &vcore::errs::kind(&e));
+            check_error_consistency(run, &idx, &e, c, json!({"phase": "span-wrapped parse"}), counts);
+            run.inconclusive("span-wrapped parse of a generated document failed (acceptance is not C16's subject)");
+            return false;
+        }
+        Ok(Ok(sts)) => sts,
+    };
+    if sts.len() != roots.len() {
+        run.inconclusive("model/delivery disagreement: number of documents delivered differs from the raw parser's");
+        return false;
+    }
+    // the same text through the byte-slice entry point must carry the same locations
+    if !c.multi && fnv_parts(&[c.text.as_bytes()]) % 8 == 0 {
+        run.eval();
+        if let Ok(Ok(t2)) = vcore::obs::catch(|| serde_saphyr::from_slice_with_options::<SNode>(c.text.as_bytes(), opts())) {
+            bump(counts, "from_slice_compared");
+            if t2 != sts[0] {
+                viol(run, 
+                    "C16:from_slice-locations-differ-from-from_str",
+                    case_json(c, json!(null)),
+                    "span-wrapped tree from from_slice differs from the one from from_str".to_string(),
+                );
+            }
+        }
+    }
+    let mut all = true;
+    for (k, ((root, x), st)) in roots.iter().zip(xs.iter()).zip(sts.iter()).enumerate() {
+        let toks = c.tokens.and_then(|t| t.get(k)).map(|v| v.as_slice());
+        all &= check_one(run, c, counts, &idx, stripped, root, x, st, k, toks);
+    }
+    all
+}
+
+#[allow(clippy::too_many_arguments)]
+fn check_one(
+    run: &Run,
+    c: &DocCase,
+    counts: &mut Counts,
+    idx: &Index,
+    stripped: &str,
+    root: &RNode,
+    x: &model::X,
+    st: &SNode,
+    doc_no: usize,
+    tokens: Option<&[Option<String>]>,
+) -> bool {
+    let mut matched: Vec<Matched> = Vec::new();
+    let mut skipped = 0u64;
+    if let Err(why) = model::align(st, x, &mut matched, &mut skipped) {
+        // still run the consistency oracle on everything delivered
+        let mut stats = LocStats::default();
+        for r in collect(st) {
+            for (which, l) in [("referenced", &r.referenced), ("defined", &r.defined)] {
+                if let Err((sig, detail)) = check_loc(idx, l, LocKind::Node, &mut stats) {
+                    viol(run, 
+                        &consistency_sig(&sig, "spanned"),
+                        case_json(c, json!({"path": r.path, "which": which})),
+                        format!("{which} of node {:?}: {detail} [{}]", r.path, loc_str(l)),
+                    );
+                }
+            }
+        }
+        if std::env::var("C16_DEBUG").is_ok() { eprintln!("ALIGN {why} {:?}", c.text); }
+        run.inconclusive("model/delivery disagreement: delivered tree does not align with the reference expansion");
+        return false;
+    }
+    *counts.entry("entries_skipped_ambiguous_merge_key").or_insert(0) += skipped;
+    bump(counts, "docs_checked");
+    let pre = pre_order(root);
+    let mut stats = LocStats::default();
+
+    for m in &matched {
+        let st = m.st;
+        let xn = m.x;
+        let at = || json!({"doc": doc_no, "path": m.path, "is_key": m.is_key});
+        bump(counts, "nodes_delivered");
+        let through = !xn.chain.is_empty();
+        let nontrivial = through || idx.nontrivial_before(xn.def.index);
+
+        // (1) consistency
+        let mut ok = true;
+        for (which, l) in [("referenced", &st.referenced), ("defined", &st.defined)] {
+            if *l == Location::UNKNOWN {
+                viol(run, 
+                    "C16:spanned-location-unknown",
+                    case_json(c, at()),
+                    format!("{which} of delivered node {:?} is Location::UNKNOWN", m.path),
+                );
+                ok = false;
+                continue;
+            }
+            if let Err((sig, detail)) = check_loc(idx, l, LocKind::Node, &mut stats) {
+                viol(run, 
+                    &consistency_sig(&sig, "spanned"),
+                    case_json(c, at()),
+                    format!("{which} of node {:?}: {detail} [{}]", m.path, loc_str(l)),
+                );
+                ok = false;
+            }
+        }
+
+        // (2) defined == the parser's mark of the defining node
+        if let Err((field, detail)) = vs_parser(&st.defined, &xn.def) {
+            let sig = if st.defined.span().offset() as usize != xn.def.index {
+                "C16:defined:names-another-node".to_string()
+            } else {
+                format!("C16:defined:differs-from-parser-mark:{field}")
+            };
+            viol(run, &sig, case_json(c, at()), format!("defined of node {:?}: {detail} [{}]", m.path, loc_str(&st.defined)));
+            ok = false;
+        }
+
+        // (3) referenced == use site
+        let roff = st.referenced.span().offset() as usize;
+        if !through {
+            if st.referenced != st.defined {
+                viol(run, 
+                    "C16:referenced:in-place-node-differs-from-defined",
+                    case_json(c, at()),
+                    format!("node {:?} is written in place but referenced [{}] != defined [{}]", m.path, loc_str(&st.referenced), loc_str(&st.defined)),
+                );
+                ok = false;
+            }
+        } else if m.is_key {
+            if xn.is_alias_itself && xn.chain.len() == 1 {
+                // `*a : v` — Spanned docs: "For aliases (*a): this is the location of the alias token."
+                let want = xn.chain[0].off();
+                if roff == want {
+                    bump(counts, "alias_key_referenced_is_alias_token");
+                } else if same_pos(&st.referenced, &st.defined) {
+                    viol(run, 
+                        "C16:alias-in-key-position:referenced-is-definition-site",
+                        case_json(c, at()),
+                        format!("key {:?} is the alias token at char {want}, but referenced [{}] == defined", m.path, loc_str(&st.referenced)),
+                    );
+                    ok = false;
+                } else {
+                    viol(run, 
+                        "C16:alias-in-key-position:referenced-elsewhere",
+                        case_json(c, at()),
+                        format!("key {:?} is the alias token at char {want}, referenced [{}]", m.path, loc_str(&st.referenced)),
+                    );
+                    ok = false;
+                }
+            } else {
+                bump(counts, "unspecified/key-inside-aliased-or-merged-container");
+            }
+        } else {
+            let hit = xn.chain.iter().position(|i| i.off() == roff);
+            match hit {
+                Some(i) => {
+                    let label = match (xn.chain[i], i == 0, xn.chain.len()) {
+                        (Indir::Alias(_), _, 1) => "alias-token(single)",
+                        (Indir::Alias(_), true, _) => "alias-token(outermost)",
+                        (Indir::Alias(_), false, _) => "alias-token(inner)",
+                        (Indir::MergeKey(_), _, _) => "merge-key",
+                        (Indir::MergeVal(_), _, _) => "merge-value",
+                    };
+                    observe(run, "referenced_reading", label);
+                    // the referenced location must be the full mark of that token
+                    if let Indir::Alias(a) = xn.chain[i]
+                        && let Some(tok) = pre.iter().find(|n| matches!(n, RNode::Alias { pos, .. } if pos.index == a))
+                        && let Err((field, detail)) = vs_parser(&st.referenced, &tok.pos())
+                    {
+                        viol(run, 
+                            &format!("C16:referenced:differs-from-parser-mark:{field}"),
+                            case_json(c, at()),
+                            format!("referenced of node {:?}: {detail} [{}]", m.path, loc_str(&st.referenced)),
+                        );
+                        ok = false;
+                    }
+                }
+                None => {
+                    let only_merge = xn.chain.iter().all(|i| !matches!(i, Indir::Alias(_)));
+                    let sig = if same_pos(&st.referenced, &st.defined) {
+                        if only_merge { "C16:merge:referenced-is-definition-site" } else { "C16:alias:referenced-is-definition-site" }
+                    } else if only_merge {
+                        "C16:merge:referenced-elsewhere"
+                    } else {
+                        "C16:alias:referenced-elsewhere"
+                    };
+                    viol(run, 
+                        sig,
+                        case_json(c, at()),
+                        format!(
+                            "node {:?} reached through {:?}; referenced [{}], defined [{}]",
+                            m.path,
+                            xn.chain,
+                            loc_str(&st.referenced),
+                            loc_str(&st.defined)
+                        ),
+                    );
+                    ok = false;
+                }
+            }
+        }
+
+        // (4) span exactness of single-line plain / quoted scalars
+        if let XK::Leaf { style, .. } = &xn.kind {
+            match style {
+                ScalarStyle::Literal | ScalarStyle::Folded => bump(counts, "unspecified/span-end-of-block-scalar"),
+                _ => {
+                    if let Some(Some(tok)) = tokens.and_then(|t| t.get(xn.pre)) {
+                        if tok.contains('\n') || tok.contains('\r') {
+                            bump(counts, "unspecified/span-end-of-multi-line-scalar");
+                        } else if let (Some(bo), Some(bl)) = (st.defined.span().byte_offset(), st.defined.span().byte_len()) {
+                            let (bo, bl) = (bo as usize, bl as usize);
+                            let slice = stripped.get(bo..bo + bl);
+                            if slice == Some(tok.as_str()) && st.defined.span().len() as usize == tok.chars().count() {
+                                bump(counts, "span_exact_ok");
+                                observe(run, "span_exact_styles", style_name(*style));
+                            } else {
+                                let sname = style_name(*style);
+                                let sig = match slice {
+                                    Some(s) if s.starts_with(tok.as_str()) && *style != ScalarStyle::Plain => {
+                                        let rest = &s[tok.len()..];
+                                        let blanks = rest.trim_start_matches([' ', '\t']);
+                                        if blanks.is_empty() || (blanks.starts_with('#') && !blanks.contains(['\n', '\r'])) {
+                                            "C16:span-exact:quoted-scalar:span-includes-trailing-blanks-or-comment".to_string()
+                                        } else {
+                                            format!("C16:span-exact:{sname}:span-too-long")
+                                        }
+                                    }
+                                    Some(s) if tok.starts_with(s) => format!("C16:span-exact:{sname}:span-too-short"),
+                                    Some(_) => format!("C16:span-exact:{sname}:other-text"),
+                                    None => format!("C16:span-exact:{sname}:range-not-on-char-boundary-or-outside"),
+                                };
+                                viol(run, 
+                                    &sig,
+                                    case_json(c, at()),
+                                    format!("scalar token {tok:?} but input[{bo}..{}] = {slice:?} [{}]", bo + bl, loc_str(&st.defined)),
+                                );
+                                ok = false;
+                            }
+                        } else if (xn.def.byte, xn.def.end_byte) != (Some(0), Some(0)) {
+                            viol(run, 
+                                "C16:byte-info-missing-for-str-input",
+                                case_json(c, at()),
+                                format!("node {:?} from &str input has no byte info [{}]", m.path, loc_str(&st.defined)),
+                            );
+                            ok = false;
+                        }
+                    }
+                }
+            }
+        }
+        if ok && nontrivial {
+            run.nontrivial(fnv_parts(&[c.text.as_bytes(), format!("{doc_no}{:?}", m.path).as_bytes()]));
+            if through {
+                bump(counts, "nodes_through_alias_or_merge");
+            }
+        }
+    }
+
+    // (5) error = span
+    let pick: Vec<usize> = {
+        let n = matched.len();
+        if c.only.is_some() || n <= c.typed_nodes {
+            (0..n).collect()
+        } else {
+            // deterministic spread, always including nodes reached through indirection first
+            let mut through: Vec<usize> = (0..n).filter(|&i| !matched[i].x.chain.is_empty() && !matched[i].is_key).collect();
+            let step = (through.len() / (c.typed_nodes / 2).max(1)).max(1);
+            through = through.into_iter().step_by(step).take(c.typed_nodes / 2).collect();
+            let mut v = through;
+            let h = fnv_parts(&[c.text.as_bytes()]) as usize;
+            let start = h % n;
+            for k in 0..n {
+                if v.len() >= c.typed_nodes {
+                    break;
+                }
+                let i = (start + k) % n;
+                if !v.contains(&i) {
+                    v.push(i);
+                }
+            }
+            v
+        }
+    };
+    for &i in if c.multi { &[][..] } else { &pick[..] } {
+        let m = &matched[i];
+        if let Some((p, _)) = &c.only
+            && *p != m.path
+        {
+            continue;
+        }
+        if m.is_key && !m.x.chain.is_empty() {
+            continue; // span side unspecified (see above)
+        }
+        for &w in c.typed_wants {
+            if let Some((_, ow)) = &c.only
+                && *ow != w
+            {
+                continue;
+            }
+            let applicable = match (&m.st.value, w) {
+                (ST::Leaf(_), _) => true,
+                (ST::Seq(_), Want::SeqI64) | (ST::Map(_), Want::MapStrI64) => false,
+                // a wrong element type inside a container is an error at the element, not here
+                (ST::Seq(_), Want::MapStrI64) | (ST::Map(_), Want::SeqI64) => true,
+                _ => true,
+            };
+            if !applicable {
+                continue;
+            }
+            check_typed(run, c, idx, st, m, w, counts);
+        }
+    }
+
+    run.max("max_nodes_in_a_document", matched.len() as u64);
+    *counts.entry("locations_checked").or_insert(0) += stats.checked;
+    *counts.entry("unspecified/linecol-after-lone-CR-or-legacy-break").or_insert(0) += stats.linecol_unspecified;
+    *counts.entry("unspecified/eof-position-line-convention").or_insert(0) += stats.eof_line_convention;
+    *counts.entry("locations_without_byte_info").or_insert(0) += stats.byte_absent;
+    true
+}
+
+fn check_error_consistency(run: &Run, idx: &Index, e: &serde_saphyr::Error, c: &DocCase, at: Value, counts: &mut Counts) -> bool {
+    let mut stats = LocStats::default();
+    let mut ok = true;
+    let mut locs: Vec<(&'static str, Location)> = Vec::new();
+    if let Some(l) = e.location() {
+        locs.push(("location()", l));
+    }
+    if let Some(ls) = e.locations() {
+        locs.push(("locations().reference_location", ls.reference_location));
+        locs.push(("locations().defined_location", ls.defined_location));
+    }
+    if locs.is_empty() {
+        bump(counts, "errors_without_location");
+    }
+    for (which, l) in locs {
+        if l == Location::UNKNOWN {
+            continue;
+        }
+        if let Err((sig, detail)) = check_loc(idx, &l, LocKind::Error, &mut stats) {
+            viol(run, 
+                &consistency_sig(&sig, "error"),
+                case_json(c, at.clone()),
+                format!("{which} of {}: {detail} [{}]", vcore::errs::kind(e), loc_str(&l)),
+            );
+            ok = false;
+        }
+    }
+    *counts.entry("error_locations_checked").or_insert(0) += stats.checked;
+    *counts.entry("error_locations_len_past_end").or_insert(0) += stats.error_len_past_end;
+    *counts.entry("unspecified/linecol-after-lone-CR-or-legacy-break").or_insert(0) += stats.linecol_unspecified;
+    *counts.entry("unspecified/eof-position-line-convention").or_insert(0) += stats.eof_line_convention;
+    ok
+}
+
+fn check_typed(run: &Run, c: &DocCase, idx: &Index, root: &SNode, m: &Matched, w: Want, counts: &mut Counts) {
+    run.eval();
+    let at = || json!({"path": m.path, "want": w.name(), "is_key": m.is_key});
+    let res = vcore::obs::catch(|| typed::run(c.text, root, &m.path, w, opts()));
+    let e = match res {
+        Err(p) => {
+            viol(run, &format!("C16:panic:{}", vcore::obs::panic_site(&p)), case_json(c, at()), p);
+            return;
+        }
+        Ok(Ok(())) => {
+            bump(counts, "typed_no_error_provoked");
+            return;
+        }
+        Ok(Err(e)) => e,
+    };
+    let kind = vcore::errs::kind(&e);
+    observe(run, "typed_error_kinds", &kind);
+    bump(counts, "typed_errors_provoked");
+    if !check_error_consistency(run, idx, &e, c, at(), counts) {
+        return;
+    }
+    let st = m.st;
+    let through = !m.x.chain.is_empty();
+    let visitor_raised = matches!(w, Want::Reject | Want::Custom);
+    let primary = e.location();
+    let locs = e.locations();
+    let describe = || {
+        format!(
+            "{kind} for {} at node {:?}: error location {:?} / locations {:?}; span-wrapped parse gave referenced [{}] defined [{}]; message: {}",
+            w.name(),
+            m.path,
+            primary.map(|l| loc_str(&l)),
+            locs.map(|l| (loc_str(&l.reference_location), loc_str(&l.defined_location))),
+            loc_str(&st.referenced),
+            loc_str(&st.defined),
+            e.without_snippet().to_string().replace('\n', " / ")
+        )
+    };
+    let nontrivial = through || idx.nontrivial_before(m.x.def.index);
+    let mark_nt = || {
+        if nontrivial {
+            run.nontrivial(fnv_parts(&[c.text.as_bytes(), format!("{:?}", m.path).as_bytes(), w.name().as_bytes()]));
+        }
+    };
+
+    if visitor_raised {
+        // The error is created outside the library (serde's `invalid_type` / `custom` from a
+        // visitor); the library can only attach a best-effort location afterwards. Accepted:
+        // the node itself; the key of its entry (documented fallback) — the latter without verdict.
+        let Some(p) = primary else {
+            bump(counts, "unspecified/visitor-raised-error-without-location");
+            return;
+        };
+        if same_pos(&p, &st.referenced) || same_pos(&p, &st.defined) {
+            bump(counts, "visitor_error_at_node");
+            mark_nt();
+            return;
+        }
+        if let Some(k) = m.key_of_entry
+            && (same_pos(&p, &k.referenced) || same_pos(&p, &k.defined))
+        {
+            bump(counts, "unspecified/visitor-raised-error-located-at-entry-key");
+            return;
+        }
+        if m.ancestors.iter().any(|a| same_pos(&p, &a.referenced) || same_pos(&p, &a.defined)) {
+            bump(counts, "unspecified/visitor-raised-error-located-at-enclosing-container");
+            return;
+        }
+        viol(run, "C16:error-vs-span:visitor-raised:located-at-unrelated-node", case_json(c, at()), describe());
+        return;
+    }
+
+    let Some(ls) = locs else {
+        viol(run, "C16:error-vs-span:no-location", case_json(c, at()), describe());
+        return;
+    };
+    let Some(p) = primary else {
+        viol(run, "C16:error-vs-span:no-location", case_json(c, at()), describe());
+        return;
+    };
+    // primary location is the use site
+    let exp_primary = if ls.reference_location != Location::UNKNOWN { ls.reference_location } else { ls.defined_location };
+    if p != exp_primary {
+        viol(run, "C16:error-vs-span:location-not-primary-of-locations", case_json(c, at()), describe());
+        return;
+    }
+    if !same_pos(&ls.reference_location, &st.referenced) {
+        let sig = if through && same_pos(&ls.reference_location, &st.defined) && same_pos(&ls.defined_location, &st.referenced) {
+            "C16:error-vs-span:under-alias:pair-swapped"
+        } else if through && same_pos(&ls.reference_location, &ls.defined_location) {
+            "C16:error-vs-span:under-alias:only-one-location"
+        } else if through {
+            "C16:error-vs-span:under-alias:referenced-differs"
+        } else {
+            "C16:error-vs-span:referenced-differs"
+        };
+        viol(run, sig, case_json(c, at()), describe());
+        return;
+    }
+    if same_pos(&ls.defined_location, &st.defined) {
+        if ls.defined_location.span().len() != st.defined.span().len() {
+            bump(counts, "typed_error_span_len_differs_from_node_span_len");
+        }
+        bump(counts, if through { "typed_error_equals_span_pair_through_alias_or_merge" } else { "typed_error_equals_span_in_place" });
+        mark_nt();
+        return;
+    }
+    // defined differs
+    let enclosing = through
+        && m.ancestors
+            .iter()
+            .any(|a| same_pos(&a.referenced, &st.referenced) && a.referenced != a.defined && same_pos(&a.defined, &ls.defined_location));
+    if enclosing && !STRICT_ERROR_DEFINED_INSIDE_REPLAY {
+        bump(counts, "unspecified/error-defined-is-enclosing-replayed-container");
+        return;
+    }
+    let sig = if enclosing {
+        "C16:error-vs-span:under-alias:defined-is-enclosing-replayed-container"
+    } else if through {
+        "C16:error-vs-span:under-alias:defined-differs"
+    } else {
+        "C16:error-vs-span:defined-differs"
+    };
+    viol(run, sig, case_json(c, at()), describe());
+}
+
+// ------------------------------------------------------------ short strings
+
+const ALPHABET: &[&str] = &[
+    "a", "1", " ", "\n", "\t", "-", ":", "?", "[", "]", "{", "}", ",", "&a", "*a", "!t", "|", ">", "'", "\"", "#", "%", "<<", "---",
+    "...", "~", "\\", "é", // the C01 alphabet (DESIGN §5 C01)
+    "\r\n", "\r", // C16's own addition: the other break styles
+];
+
+fn short_string(mut i: usize, len: usize) -> String {
+    let mut s = String::new();
+    for _ in 0..len {
+        s.push_str(ALPHABET[i % ALPHABET.len()]);
+        i /= ALPHABET.len();
+    }
+    s
+}
+
+#[derive(serde::Deserialize, Debug)]
+#[allow(dead_code)]
+struct Rec {
+    a: i64,
+    #[serde(default)]
+    b: Option<Vec<bool>>,
+}
+
+fn check_short(run: &Run, text: &str, counts: &mut Counts) {
+    let stripped = text.strip_prefix('\u{FEFF}').unwrap_or(text);
+    let idx = Index::new(stripped);
+    let c = DocCase { text, tokens: None, multi: false, typed_nodes: 0, typed_wants: &[], only: None, source: "short" };
+    let case = |target: &str| json!({"kind": "short", "text": text, "target": target});
+    let any_loc_past0 = std::cell::Cell::new(false);
+    let on_err = |e: &serde_saphyr::Error, target: &str, counts: &mut Counts| {
+        observe(run, "short_error_kinds", &vcore::errs::kind(e));
+        bump(counts, "short_errors");
+        if let Some(l) = e.location() {
+            let off = l.span().offset() as usize;
+            if off > 0 && idx.nontrivial_before(off) {
+                any_loc_past0.set(true);
+            }
+        }
+        check_error_consistency(run, &idx, e, &c, json!({"target": target}), counts);
+    };
+    // span-wrapped tree
+    run.eval();
+    match vcore::obs::catch(|| serde_saphyr::from_str_with_options::<SNode>(text, opts())) {
+        Err(p) => viol(run, &format!("C16:panic:{}", vcore::obs::panic_site(&p)), case("SNode"), p),
+        Ok(Ok(st)) => {
+            bump(counts, "short_ok_trees");
+            let mut stats = LocStats::default();
+            for r in collect(&st) {
+                for (which, l) in [("referenced", &r.referenced), ("defined", &r.defined)] {
+                    if *l == Location::UNKNOWN {
+                        // an empty document has no node at all; the synthesized null carries the last seen mark
+                        bump(counts, "short_unknown_location");
+                        continue;
+                    }
+                    let off = l.span().offset() as usize;
+                    if off > 0 && idx.nontrivial_before(off) {
+                        any_loc_past0.set(true);
+                    }
+                    if let Err((sig, detail)) = check_loc(&idx, l, LocKind::Node, &mut stats) {
+                        viol(run, 
+                            &consistency_sig(&sig, "spanned"),
+                            case("SNode"),
+                            format!("{which} of node {:?}: {detail} [{}]", r.path, loc_str(l)),
+                        );
+                    }
+                }
+            }
+            *counts.entry("locations_checked").or_insert(0) += stats.checked;
+            *counts.entry("unspecified/linecol-after-lone-CR-or-legacy-break").or_insert(0) += stats.linecol_unspecified;
+            *counts.entry("unspecified/eof-position-line-convention").or_insert(0) += stats.eof_line_convention;
+        }
+        Ok(Err(e)) => on_err(&e, "SNode", counts),
+    }
+    // a few typed targets so that type errors (not only scan errors) are located
+    run.eval();
+    match vcore::obs::catch(|| serde_saphyr::from_str_with_options::<Vec<i64>>(text, opts())) {
+        Err(p) => viol(run, &format!("C16:panic:{}", vcore::obs::panic_site(&p)), case("Vec<i64>"), p),
+        Ok(Err(e)) => on_err(&e, "Vec<i64>", counts),
+        Ok(Ok(_)) => {}
+    }
+    run.eval();
+    match vcore::obs::catch(|| serde_saphyr::from_str_with_options::<Rec>(text, opts())) {
+        Err(p) => viol(run, &format!("C16:panic:{}", vcore::obs::panic_site(&p)), case("Rec"), p),
+        Ok(Err(e)) => on_err(&e, "Rec", counts),
+        Ok(Ok(_)) => {}
+    }
+    run.eval();
+    match vcore::obs::catch(|| serde_saphyr::from_str_with_options::<BTreeMap<String, bool>>(text, opts())) {
+        Err(p) => viol(run, &format!("C16:panic:{}", vcore::obs::panic_site(&p)), case("BTreeMap<String,bool>"), p),
+        Ok(Err(e)) => on_err(&e, "BTreeMap<String,bool>", counts),
+        Ok(Ok(_)) => {}
+    }
+    if any_loc_past0.get() {
+        run.nontrivial(fnv_parts(&[b"short", text.as_bytes()]));
+    }
+}
+
+// ------------------------------------------------------------ generated docs
+
+fn tokens_by_pre(r: &ydoc::Rendered, n_nodes: usize) -> Vec<Option<String>> {
+    let mut v = vec![None; n_nodes];
+    for t in &r.toks {
+        if t.node < n_nodes {
+            v[t.node] = t.token.clone();
+        }
+    }
+    v
+}
+
+/// Render + decorate + confirm with the raw parser that the text still means the
+/// intended tree and that the renderer's token positions are the parser's.
+fn build_doc(
+    run: &Run,
+    rng: &mut Rng,
+    tree: &Node,
+    ro: &RenderOpts,
+    has_block: bool,
+    intensity: usize,
+    allow_prefix: bool,
+) -> Option<(String, Vec<Option<String>>, Vec<&'static str>)> {
+    let r = ydoc::render(tree, ro);
+    let d = docgen::decorate(rng, &r, tree, ro.brk, has_block, intensity, allow_prefix);
+    let Some(root) = reftree::parse_one(&d.text) else {
+        run.inconclusive("generator-invalid: decorated document rejected by the raw parser");
+        return None;
+    };
+    if reftree::rnode_shape_anon(&root) != reftree::node_shape(tree) {
+        if std::env::var("C16_DEBUG").is_ok() { eprintln!("DIFFTREE {:?}\n   und {:?}", d.text, r.text); }
+        run.inconclusive("generator-invalid: decorated document parsed as a different tree");
+        return None;
+    }
+    // renderer's idea of where each node starts vs the parser's
+    let pre = pre_order(&root);
+    for t in &r.toks {
+        let Some(n) = pre.get(t.node) else {
+            run.inconclusive("generator-invalid: token numbering differs from the parser's pre-order");
+            return None;
+        };
+        let new_start = d.new_index[t.char_start.min(d.new_index.len() - 1)];
+        if matches!(n, RNode::Scalar { style: ScalarStyle::Literal | ScalarStyle::Folded, .. }) {
+            // the parser marks a block scalar at its first content character, the renderer at
+            // the `|` / `>` indicator: which one is "the start" is not pinned down
+            run.count("unspecified/block-scalar-start-convention", 1);
+            continue;
+        }
+        if n.pos().index != new_start {
+            if std::env::var("C16_DEBUG").is_ok() { eprintln!("RENDERPOS node {} renderer {} parser {} {:?}", t.node, new_start, n.pos().index, d.text); }
+            run.inconclusive("renderer/parser disagreement about a node's start position");
+            return None;
+        }
+    }
+    let toks = tokens_by_pre(&r, pre.len());
+    let text = if d.bom { format!("\u{FEFF}{}", d.text) } else { d.text };
+    Some((text, toks, d.what))
+}
+
+const LEAVES_C16: &[Leaf] = &[
+    Leaf { text: "é", style: Style::Plain, unique: true },
+    Leaf { text: "7", style: Style::Plain, unique: false },
+    Leaf { text: "ü ✓", style: Style::Double, unique: false },
+    Leaf { text: "q 😀", style: Style::Single, unique: false },
+];
+
+/// One anchor + one alias (optionally as a merge) on a base tree: every placement.
+fn single_alias_decorations(base: &Node) -> Vec<Node> {
+    let paths = treegen::node_paths(base);
+    let mut out = vec![base.clone()];
+    for (ai, ap) in paths.iter().enumerate() {
+        if ap.is_empty() {
+            continue;
+        }
+        for (qi, qp) in paths.iter().enumerate() {
+            // alias strictly after the anchored node in document order and not inside it
+            if qi <= ai || qp.starts_with(ap) {
+                continue;
+            }
+            let leafish = match treegen::node_at(base, qp) {
+                Node::Scalar { .. } => true,
+                Node::Seq { items, .. } => items.is_empty(),
+                Node::Map { entries, .. } => entries.is_empty(),
+                Node::Alias(_) => false,
+            };
+            if !leafish {
+                continue;
+            }
+            let mut t = base.clone();
+            let n = treegen::node_at_mut(&mut t, ap);
+            *n = n.clone().with_anchor("a");
+            *treegen::node_at_mut(&mut t, qp) = Node::alias("a");
+            out.push(t.clone());
+            // merge variant: the alias is a map value and the anchored node a mapping
+            if let Some((&last, parent)) = qp.split_last()
+                && last % 2 == 1
+                && matches!(treegen::node_at(base, parent), Node::Map { .. })
+                && matches!(treegen::node_at(base, ap), Node::Map { .. })
+            {
+                let mut kp = parent.to_vec();
+                kp.push(last - 1);
+                if kp != *ap {
+                    *treegen::node_at_mut(&mut t, &kp) = Node::plain("<<");
+                    out.push(t);
+                }
+            }
+        }
+    }
+    out
+}
+
+fn replay(run: &Run, rep: &Value) {
+    let case = &rep["case"];
+    let mut counts = Counts::new();
+    let text = case["text"].as_str().unwrap_or("").to_string();
+    if case["kind"].as_str() == Some("short") {
+        check_short(run, &text, &mut counts);
+        return;
+    }
+    let tokens: Option<Vec<Vec<Option<String>>>> = case["tokens"].as_array().map(|docs| {
+        docs.iter()
+            .map(|d| d.as_array().map(|a| a.iter().map(|t| t.as_str().map(|s| s.to_string())).collect()).unwrap_or_default())
+            .collect()
+    });
+    let only = match (case["at"]["path"].as_array(), case["at"]["want"].as_str().and_then(Want::from_name)) {
+        (Some(p), Some(w)) => Some((p.iter().filter_map(|x| x.as_u64().map(|x| x as usize)).collect(), w)),
+        _ => None,
+    };
+    let c = DocCase {
+        text: &text,
+        tokens: tokens.as_deref(),
+        multi: case["multi"].as_bool().unwrap_or(false),
+        typed_nodes: usize::MAX,
+        typed_wants: typed::WANTS_ALL,
+        only,
+        source: "replay",
+    };
+    check_doc(run, &c, &mut counts);
+}
+
+fn main() {
+    let run = Run::from_args("C16");
+    if let Some(rep) = run.is_replay() {
+        replay(&run, rep);
+        run.finish(Finish::new("replay"));
+    }
+    let tier = run.tier;
+
+    // ---- part 1: exhaustive short token strings (consistency of every location)
+    let max_len = tier.pick(3, 4);
+    let mut total_short = 0usize;
+    for len in 0..=max_len {
+        let n = ALPHABET.len().pow(len as u32);
+        total_short += n;
+        par_range(n, |i| {
+            let mut counts = Counts::new();
+            let s = short_string(i, len);
+            check_short(&run, &s, &mut counts);
+            if i % 7919 == 0 {
+                run.sample(|| json!({"kind": "short", "text": s}));
+            }
+            run.count_map(&counts);
+            flush_viol(&run);
+        });
+    }
+    run.count("short_strings", total_short as u64);
+
+    // ---- part 2: exhaustive small trees x one anchor/alias(/merge) x layouts x breaks x prefixes
+    let max_nodes = tier.pick(3, 4);
+    let mut bases = Vec::new();
+    for n in 1..=max_nodes {
+        bases.extend(treegen::base_trees(n, LEAVES_C16));
+    }
+    run.count("base_trees", bases.len() as u64);
+    let wants_small: &[Want] = &[Want::I64, Want::Bool, Want::Unit, Want::Reject];
+    par_range(bases.len(), |bi| {
+        let mut counts = Counts::new();
+        let mut rng = Rng::stream(0xC16, bi as u64); // decoration is off here; rng unused by intensity 0
+        for t in single_alias_decorations(&bases[bi]) {
+            for flow in [false, true] {
+                let mut t = t.clone();
+                t.set_flow(flow);
+                for brk in ["\n", "\r\n", "\r"] {
+                    let ro = RenderOpts { indent: 2, brk, compact: true };
+                    let Some((text, toks, _)) = build_doc(&run, &mut rng, &t, &ro, false, 0, true) else { continue };
+                    let toks = [toks];
+                    for prefix in ["", "# é✓ 😀", "\u{FEFF}"] {
+                        let text = match prefix {
+                            "" => text.clone(),
+                            "\u{FEFF}" => format!("\u{FEFF}{text}"),
+                            p => format!("{p}{brk}{text}"),
+                        };
+                        let c = DocCase {
+                            text: &text,
+                            tokens: Some(&toks),
+                            multi: false,
+                            typed_nodes: usize::MAX,
+                            typed_wants: wants_small,
+                            only: None,
+                            source: "small-tree",
+                        };
+                        if check_doc(&run, &c, &mut counts) {
+                            bump(&mut counts, "small_tree_docs");
+                        }
+                    }
+                }
+            }
+        }
+        run.count_map(&counts);
+        flush_viol(&run);
+    });
+
+    // ---- part 3: random decorated documents
+    let n_random = tier.pick(40_000, 400_000);
+    par_range(n_random, |i| {
+        let mut counts = Counts::new();
+        let mut rng = Rng::stream(run.seed, i as u64);
+        let allow_block = rng.chance(1, 5);
+        let (tree, used_block) = {
+            let mut g = docgen::Gen::new(&mut rng);
+            g.allow_block_scalars = allow_block;
+            let t = g.document();
+            (t, g.used_block_scalar)
+        };
+        let brk = match rng.below(10) {
+            0..=4 => "\n",
+            5..=8 => "\r\n",
+            _ => "\r",
+        };
+        let ro = RenderOpts { indent: *rng.pick(&[1usize, 2, 2, 3, 4]), brk, compact: rng.bool() };
+        let intensity = rng.below(4);
+        let Some((mut text, toks, what)) = build_doc(&run, &mut rng, &tree, &ro, used_block, intensity, true) else {
+            run.count_map(&counts);
+            return;
+        };
+        let mut toks = vec![toks];
+        // sometimes: a stream of two documents (locations in the second one)
+        let multi = rng.chance(1, 6);
+        if multi {
+            let (tree2, used_block2) = {
+                let mut g = docgen::Gen::new(&mut rng);
+                g.allow_block_scalars = allow_block;
+                let t = g.document();
+                (t, g.used_block_scalar)
+            };
+            let Some((text2, toks2, _)) = build_doc(&run, &mut rng, &tree2, &ro, used_block2, intensity.min(2), false) else {
+                run.count_map(&counts);
+                return;
+            };
+            if !text.ends_with(['\n', '\r']) {
+                text.push_str(brk);
+            }
+            text.push_str("---");
+            text.push_str(if rng.chance(1, 3) { " # é second" } else { "" });
+            text.push_str(brk);
+            text.push_str(&text2);
+            toks.push(toks2);
+        }
+        let wants: Vec<Want> = {
+            let mut w = vec![Want::I64];
+            for _ in 0..tier.pick(3, 5) {
+                let x = *rng.pick(typed::WANTS_ALL);
+                if !w.contains(&x) {
+                    w.push(x);
+                }
+            }
+            w
+        };
+        let c = DocCase {
+            text: &text,
+            tokens: Some(&toks),
+            multi,
+            typed_nodes: tier.pick(10, 24),
+            typed_wants: &wants,
+            only: None,
+            source: "random",
+        };
+        if check_doc(&run, &c, &mut counts) {
+            bump(&mut counts, "random_docs");
+            bump(
+                &mut counts,
+                match brk {
+                    "\n" => "random_docs_lf",
+                    "\r\n" => "random_docs_crlf",
+                    _ => "random_docs_cr_only",
+                },
+            );
+            for w in &what {
+                observe(&run, "decorations", w);
+            }
+            if tree.has_alias() {
+                bump(&mut counts, "random_docs_with_alias_or_merge");
+            }
+            if multi {
+                bump(&mut counts, "random_two_document_streams");
+            }
+        }
+        if i % 2999 == 0 {
+            run.sample(|| json!({"kind": "doc", "text": text}));
+        }
+        run.count_map(&counts);
+        flush_viol(&run);
+    });
+
+    let scope = format!(
+        "(a) all strings of <= {max_len} tokens over the 28-token C01 alphabet + CRLF + CR ({total_short} strings) x 4 targets, every error / Spanned location checked for consistency; \
+         (b) all base trees with <= {max_nodes} nodes over 4 scalar leaves (multi-byte plain, integer, multi-byte double- and single-quoted) + empty seq/map, undecorated or with every placement of one anchor + one later alias (and its merge-key variant), x {{block, flow}} x {{LF, CRLF, CR}} x {{no prefix, multi-byte comment line, BOM}}, every delivered node x 4 typed demands"
+    );
+    let fin = Finish::new(
+        "a node counts when all its checks ran and either a multi-byte character or a non-LF break precedes it in the document, or it is reached through an alias/merge; typed-error cases count under the same condition; short strings count when some reported location lies after a multi-byte character or a CR; distinct by hash(text, delivered path[, demanded type])",
+    )
+    .exhaustive(scope)
+    .assume("the raw saphyr-parser event stream and its marks are the ground truth for what a document means and where a node starts")
+    .assume("line/column convention after a lone CR or after U+0085/U+2028/U+2029 is unspecified (offsets are still checked)")
+    .assume("span end of block and multi-line scalars is unspecified; referenced location of mapping keys inside an aliased/merged container is unspecified; errors raised by a visitor (serde invalid_type/custom) may be located at the entry key")
+    .min_nontrivial(if tier == Tier::Quick { 5_000 } else { 50_000 });
+    run.finish(fin);
+}
